@@ -8,6 +8,7 @@ import (
 	"io"
 	"math/rand"
 	"os"
+	"sync"
 )
 
 // Result of replaying one vector (or validating one recorded case).
@@ -89,4 +90,32 @@ func safeExecute(t *jet.Template, w io.Writer, vars jet.VarMap, data interface{}
 		}
 	}()
 	return t.Execute(w, vars, data)
+}
+
+// installTracer: with VERIF_TRACE set, every interpreter event (verif hooks) is appended to that file.
+func installTracer() func() {
+	path := os.Getenv("VERIF_TRACE")
+	if path == "" {
+		return func() {}
+	}
+	f, err := os.Create(path)
+	if err != nil {
+		return func() {}
+	}
+	w := bufio.NewWriterSize(f, 1<<20)
+	enc := json.NewEncoder(w)
+	var mu sync.Mutex
+	jet.VerifSetTracer(func(e jet.VerifEvent) {
+		mu.Lock()
+		enc.Encode(map[string]interface{}{"rt": e.Rt, "seq": e.Seq, "ev": e.Ev, "depth": e.Depth, "ctx": e.Ctx,
+			"content": e.Content, "writer": e.Writer, "outlen": e.OutLen, "args": e.Args})
+		mu.Unlock()
+	})
+	return func() {
+		jet.VerifSetTracer(nil)
+		mu.Lock()
+		w.Flush()
+		f.Close()
+		mu.Unlock()
+	}
 }
